@@ -111,6 +111,11 @@ def patterns(tier):
     add('get_purification(rho,dimR=4,seed)', lambda s: numqi.utils.get_purification(rho3, dimR=4, seed=s))
     add('get_completed_entangled_subspace((2,2,2),quant-ph/0405077,seed)', lambda s: numqi.matrix_space.get_completed_entangled_subspace((2, 2, 2), 'quant-ph/0405077', seed=s))
     add('get_mps_dicke_transform_matrix(2,3,seed)', lambda s: numqi.entangle.pureb_quantum.get_mps_dicke_transform_matrix(2, 3, seed=s)[0])
+    rho_w = numqi.state.Werner(2, 0.7)
+
+    def chab(s):
+        return numqi.entangle.AutodiffCHAREE((2, 2), num_state=6).get_boundary(rho_w, xtol=1e-2, use_tqdm=False, seed=s)
+    add('AutodiffCHAREE.get_boundary(seed)', chab)
     if tier == 'thorough':
         def cha(s):
             m = numqi.entangle.CHABoundaryBagging((2, 2), num_state=20)
@@ -327,7 +332,7 @@ def run(ctx):
     meta = []
     for label, kind, f in pats:
         hs = canon + rng.sample(rel, 10 if quick else 146)
-        if label.startswith(('CHABoundaryBagging', 'optimize.minimize')):
+        if label.startswith(('CHABoundaryBagging', 'optimize.minimize', 'AutodiffCHAREE')):
             hs = canon[:2] + rng.sample(rel, 4)
         for h in hs:
             try:
